@@ -291,6 +291,11 @@ def _h_owner_ties(ctx, R, iv):
     R.floor("upward steps of is_valid (H14)", 4)
 
 
+def _boolean_valued(e):
+    from ..unroll import _boolean
+    return _boolean(e)
+
+
 def _per_node_path_starts_empty(f, join_call):
     """the sequence handed to join() is a per-node path that is set to empty for the root (so the top instance's own name is never part of
     it): a local that, inside the traversal loop, is assigned an empty tuple / list on one branch and `<path above> + (<name>,)` on the
@@ -716,7 +721,7 @@ def _leaf_pruning(ctx, R, rid, closure):
           "Cable>Wire) of every enumeration-side factory call — reported only when definitely ill-typed; H4 is_valid has a case for each "
           "item kind of the grammar; H6 the name-map walkers and HRef.name agree on separator, top-name slice and bus suffix; H7 the "
           "downward search descends into a child that is both a target and an ancestor of a target; H8 the ancestor walks of "
-          "is_valid/is_unique use the cursor, not self; H7b both work lists re-queue what they discover and nothing but `already in the set` can keep an ancestor out of the bound set; H11 every yield is de-duplicated on the value it yields and the already-returned set is subtracted from the name-map set after its last insertion; H12 a reference taken from the work list is used only after its validity test, for every item kind (must-dataflow); H13 the wire / cable enumerations prune their descent by is_leaf(), never by the absence of child instances (a cell may consist of wires only). Decides canonical-object and well-formedness clauses; completeness/uniqueness of "
+          "is_valid/is_unique use the cursor, not self; H7b both work lists re-queue what they discover and nothing but `already in the set` can keep an ancestor out of the bound set; H11 every yield is de-duplicated on the value it yields and the already-returned set is subtracted from the name-map set after its last insertion; H12 a reference taken from the work list is used only after its validity test, for every item kind (must-dataflow); H13 the wire / cable enumerations prune their descent by is_leaf(), never by the absence of child instances (a cell may consist of wires only); H14 every upward step of is_valid ties the parent reference's item to the element's current owner (path enumeration), and every value is_valid returns is a genuine boolean. Decides canonical-object and well-formedness clauses; completeness/uniqueness of "
           "the enumeration is a graph property and is not decided.")
 def check_c11(ctx, R):
     P = ctx.P
@@ -834,7 +839,9 @@ def check_c11(ctx, R):
               (isinstance(r.value, ast.Constant) and r.value.value is True and any(isinstance(p, ast.If) and "top_instance" in norm(p.test) for p in parent_chain(r)))
               or (isinstance(r.value, ast.Compare) and "top_instance" in norm(r.value))
               # a conjunction is true only if each conjunct is: `return bool(top) and top == item`
-              or (isinstance(r.value, ast.BoolOp) and isinstance(r.value.op, ast.And)
+              # (every conjunct a genuine boolean: the callers test `is_valid is False`, so `top and top == item`, which hands back
+              # None when there is no top instance, is not the same thing)
+              or (isinstance(r.value, ast.BoolOp) and isinstance(r.value.op, ast.And) and all(_boolean_valued(v) for v in r.value.values)
                   and any(isinstance(v, ast.Compare) and len(v.ops) == 1 and isinstance(v.ops[0], (ast.Eq, ast.Is)) and "top_instance" in norm(v) for v in r.value.values))]
     if maybe_true and len(at_top) == len(maybe_true):
         R.ok("H4", "validity is established only at the netlist's top instance", iv.loc(at_top[0]))
@@ -988,7 +995,8 @@ def _selection_sets(f):
           "closure's exclusion filters compare whole references, never bare items (items are shared between occurrences); a reference built "
           "around a parent link that can be None (element removed from its parent) is never yielded without a test in between; H11' yields of the "
           "raw generators and of the work-list closures are de-duplicated on the value yielded; H7b' / H13' the occurrence enumeration the traces "
-          "start from is closed under discovery and no step is pruned on the absence of child instances (a cell may consist of wires only). Decides "
+          "start from is closed under discovery and no step is pruned on the absence of child instances (a cell may consist of wires only); H9 no exclusion "
+          "inside a closure helper compares bare items; H15 the branch that handles a hierarchical reference enumerates nothing over all occurrences. Decides "
           "well-formedness of what the closure builds; that the closure equals the electrical net for every start point is not decided.")
 def check_c12(ctx, R):
     P = ctx.P
